@@ -1343,4 +1343,10 @@ example : ((samplePolyRecord (fun _ _ => witnessRespS) .spin witnessRaw [(.int 0
     ∧ polyVars (normPoly .spin witnessRaw) = [.int 0, .int 1, .int 2] := by
   decide +kernel
 
+/-- the hypotheses of `polymorph_response_columns` are met by `witnessRespB` with `order` = the polynomial's variables:
+    pairwise different labels, one value per variable in every record -/
+example : witnessRespB.vars.Nodup ∧ (witnessRespB.rows.all (fun r => r.sample.length == witnessRespB.vars.length)) = true
+    ∧ polyVars (normPoly .binary witnessRaw) = [.int 0, .int 1, .int 2] := by
+  decide +kernel
+
 end C15
